@@ -90,7 +90,7 @@ def renderText (o : PyObj) : Except String String :=
   | .lenFmt pre post =>
     match o.len with
     | .ok n => .ok (pre ++ toString n ++ post)
-    | .raises m => .error m
+    | .raises m => if lenGuarded then .ok (safeStr o) else .error m
   | .safeStr => .ok (safeStr o)
 
 /-- `NodeValue.__init__`: the original name is kept only when it differs from the name -/
@@ -139,7 +139,10 @@ def branchChildren (L : Limits) (pvid depth : Nat) (o : PyObj) : List Branch →
 def childNodes (L : Limits) (pvid : Nat) (o : PyObj) (depth : Nat) : Except String (List Node) :=
   if noChildTypes.contains o.tyName then .ok []
   else if depthStop depth L.maxDepth then .ok []
-  else branchChildren L pvid (depth + 1) o childBranches
+  else
+    match branchChildren L pvid (depth + 1) o childBranches with
+    | .ok cs => .ok cs
+    | .error m => if childrenGuarded then .ok [] else .error m
 
 def mkRef (n : Node) (id : Nat) : VarId := ⟨id, n.name, varModifiers n.name, n.orig, n.obj⟩
 
@@ -325,7 +328,7 @@ structure WatchesOut where
 deriving Repr
 
 /-- `eval_watch` for watches and log fields (own table, merged on success; failures contained per watch) and
-    `process_capture_variable` (no containment, no guard unless the source has one) -/
+    `process_capture_variable` (no containment of failures; the budget guard is the extracted one) -/
 def collectWatches (H : Heap) (L : Limits) : List WatchIn → Cache → List Entry → WatchesOut
   | [], c, t => ⟨c, t, [], none⟩
   | w :: ws, c, t =>
@@ -335,8 +338,13 @@ def collectWatches (H : Heap) (L : Limits) : List WatchIn → Cache → List Ent
       match pv.failed with
       | some m => ⟨pv.cache, t, [], some m⟩
       | none =>
-        let r := collectWatches H L ws pv.cache (t ++ pv.table)
-        { r with outs := ⟨w.source, w.expr, true, pv.vid, none, w.value⟩ :: r.outs }
+        match pv.vid, captureLimitError with
+        | none, some msg =>
+          let r := collectWatches H L ws pv.cache t
+          { r with outs := ⟨w.source, w.expr, false, none, some msg, w.value⟩ :: r.outs }
+        | v, _ =>
+          let r := collectWatches H L ws pv.cache (t ++ pv.table)
+          { r with outs := ⟨w.source, w.expr, true, v, none, w.value⟩ :: r.outs }
     | _ =>
       match pv.failed with
       | some m =>
